@@ -208,6 +208,9 @@ class Run(object):
             if res["rc"] != 0 or res["distinct"] != expected:
                 self.machinery.append("tlc rc=%s distinct=%s expected=%s\n%s" % (
                     res["rc"], res["distinct"], expected, res["out"][-3000:]))
+                os.makedirs(OUT, exist_ok=True)
+                with open(os.path.join(OUT, "tlc_failure_%s.log" % self.prop), "w") as f:
+                    f.write(res["out"])
             self.states += res["distinct"]
             self.transitions += res["states"]
             for v in vs:
